@@ -223,7 +223,7 @@ fn hook(site: u32, kind: u32) {
     if (site as usize) < MAX_SITES { SITE_HITS[site as usize].fetch_add(1, Relaxed); }
     if site < H_BASE { let _ = SITE_LOG.try_with(|l| if let Ok(mut l) = l.try_borrow_mut() { if let Some(v) = l.as_mut() { if v.len() < 4096 { v.push((site, crate::drive::stamp())) } } }); }
     match TL.with(|t| t.get()) {
-        Tl::None => {}
+        Tl::None => chaos_delay(kind),      // (no effect unless the thread asked for delays: `enable_thread_chaos`, used by the tokio lanes' worker threads)
         Tl::Ser { sh, tid } => unsafe { &*sh }.on_site(tid, site, kind),
         Tl::Free { .. } => chaos_delay(kind),
     }
@@ -241,6 +241,9 @@ fn note_hook(site: u32, value: u64) {
     if n.len() < 100_000 { n.push((tid, site, value, stamp)) }
 }
 pub fn take_notes() -> Vec<(usize, u32, u64, u64)> { std::mem::take(&mut *NOTES.lock().unwrap()) }
+
+/// makes the calling (unregistered) thread inject random delays at the library's hook sites, like the threads of a FREE run
+pub fn enable_thread_chaos(level: u8, seed: u64) { CHAOS_LV.with(|c| c.set(level)); CHAOS.with(|c| c.set(seed | 1)) }
 
 #[inline(never)]
 fn chaos_delay(kind: u32) {
